@@ -22,6 +22,24 @@ fn main() {
     world::install_panic_hook();
     world::remove_stale_scratch();
     world::install_global_hooks();
+    if args[1] == "net-demo2" {
+        net::init_sleep_sites();
+        let c = props::c07::Config { nodes: 3, pids: vec![100, 200, 300], trigger: props::c07::Trigger::LateJoin };
+        match props::c07::build(&c) {
+            Ok(mut w) => {
+                let r = w.run_to_quiescence(20000);
+                println!("run: {:?} steps {}", r, w.steps);
+                for i in 0..3 {
+                    println!("n{} role={} members={:?}", i + 1, w.role(i), w.members(i));
+                }
+                println!("problems: {:?}", w.problems);
+                w.shutdown();
+            }
+            Err(e) => println!("build failed: {}", e),
+        }
+        world::cleanup_scratch();
+        std::process::exit(0);
+    }
     if args[1] == "net-demo" {
         net::init_sleep_sites();
         let n: usize = args[2].parse().unwrap_or(2);
